@@ -374,7 +374,17 @@ fn run_traj_margin(r: &Req) -> String {
                     // positive in floating point).  Other cones: the harness's own membership
                     // computation (norms, logs, Jacobi) is only accurate to a few ulps of the
                     // vector norm, and converged iterates approach the boundary to that order.
-                    let tol = if matches!(c, NonnegativeConeT(_)) { 0.0 } else { -1e-13 };
+                    // (data of magnitude 1e15..1e18: norms lose a few thousand ulps, tolerance 1e-9)
+                    let tol = if matches!(c, NonnegativeConeT(_)) { 0.0 } else if r.has("extreme") { -1e-9 } else { -1e-13 };
+                    // the starting point: after the shift to the interior (or the unit
+                    // initialisation) every component of a nonnegative block is at least the
+                    // target margin, which is at least 1 -- whatever the magnitude of the data
+                    if j == 0 && matches!(c, NonnegativeConeT(_)) && bad == "-" {
+                        let lo = v.iter().cloned().fold(f64::INFINITY, f64::min);
+                        if !(lo >= 0.999) {
+                            bad = format!("pass0:{}:{}:initial-margin:{:e}", fmt_cones(std::slice::from_ref(c)), if dual { "z" } else { "s" }, lo);
+                        }
+                    }
                     if !(m > tol) && bad == "-" {
                         bad = format!("pass{}:{}:{}:margin:{:e}", j, fmt_cones(std::slice::from_ref(c)), if dual { "z" } else { "s" }, m);
                     }
@@ -462,6 +472,29 @@ fn settings(rng: &mut Rng) -> DefaultSettings<f64> {
     s
 }
 
+/// huge / tiny data magnitudes: the starting point (budget 0) must still be strictly interior
+fn extreme_problem(rng: &mut Rng, k: usize) -> Prob {
+    if k == 0 {
+        // x1 + x2 <= -3e17, x >= 0
+        let A = CscMatrix::new(3, 2, vec![0, 2, 4], vec![0, 1, 0, 2], vec![1.0, -1.0, 1.0, -1.0]);
+        return Prob { P: CscMatrix::zeros((2, 2)), q: vec![1.0, 1.0], A, b: vec![-3e17, 0.0, 0.0], cones: vec![NonnegativeConeT(3)] };
+    }
+    let kinds = *rng.choose(&["n", "n", "zn", "nq", "q", "nt", "znq"]);
+    let cones = cone_list(rng, kinds, 3);
+    let n = 1 + rng.below(4);
+    let pdiag = *rng.choose(&[0.0, 1.0]);
+    let mut p = planted(rng, n, cones, pdiag, Vals::SmallInt(3));
+    let e = rng.uniform(15.0, 18.0);
+    let sc = 10f64.powf(if rng.bool(0.8) { e } else { -e });
+    match rng.below(4) {
+        0 => { for v in p.b.iter_mut() { *v = -(v.abs() + 1.0) * sc; } }
+        1 => { for v in p.b.iter_mut() { if rng.bool(0.5) { *v = -(v.abs() + 1.0) * sc; } } }
+        2 => { for v in p.b.iter_mut() { *v *= sc; } for v in p.q.iter_mut() { *v *= sc; } }
+        _ => { for v in p.q.iter_mut() { *v = (v.abs() + 1.0) * sc; } }
+    }
+    p
+}
+
 fn pos(rng: &mut Rng) -> f64 {
     match rng.below(5) { 0 => 1.0, 1 => rng.logmag(-8.0, 8.0).abs(), 2 => 1e-300, _ => rng.uniform(0.01, 3.0) }
 }
@@ -494,6 +527,15 @@ fn generate(s: &mut Session) {
         let l = Line::new("vars.add_step").fs("x", &x).fs("dx", &dx).f("tau", pos(&mut s.rng)).f("dtau", dir(&mut s.rng))
             .fs("sv", &sv).fs("dsv", &dsv).fs("zv", &zv).fs("dzv", &dzv).f("kappa", pos(&mut s.rng)).f("dkappa", dir(&mut s.rng))
             .f("alpha", *s.rng.choose(&[0.99, 1.0, 0.3, 1e-4, 0.123456789]));
+        s.submit(l.done());
+    }
+    for k in 0..s.budget(150, 4000) {
+        let mut rng = s.rng.fork();
+        let p = extreme_problem(&mut rng, k);
+        let mut st = settings(&mut rng);
+        st.max_iter = 0;
+        let l = line_settings(line_prob(Line::new("traj.margin"), &p), &st).u("extreme", 1);
+        s.count("extreme-initial-point");
         s.submit(l.done());
     }
     for _ in 0..s.budget(200, 4000) {
